@@ -900,6 +900,29 @@ Proof.
     + pos.
 Qed.
 
+(* `l.r`: the code is that of `l[name]`, name the printed form of r; r itself is neither compiled nor run *)
+Lemma sx_dot_S : forall obj f l r m,
+  sx o fns obj (S f) (EInfix TPeriod l r) m =
+  then_ (sx o fns obj f l m) (fun m1 => pop1s m1 (fun a m2 =>
+    pushr m2 (match estr 64 r with Some name => spec_index o a (VStr name) | None => Err ENeedOracle end))).
+Proof. reflexivity. Qed.
+
+Lemma cc_dot_g : forall l r name c c1 Q1,
+  cstate_ok c -> res_ok c c1 (sp_x l) Q1 -> estr 64 r = Some name ->
+  res_ok c (emit0 OpIndex (emit_const (VStr name) c1)) (sp_x (EInfix TPeriod l r)) nonempty.
+Proof.
+  intros l r name c c1 Q1 Hc R1 Hn.
+  assert (Hc1 : cstate_ok c1) by (destruct R1 as (? & E1 & _); apply E1).
+  apply (cc_binary_g (EInfix TPeriod l r) l (EStr name) OpIndex (spec_index o) c c1 _ Q1 nonempty Hc R1).
+  - apply cc_const_g; [exact Hc1|reflexivity].
+  - intros obj f m. rewrite sx_dot_S, Hn.
+    destruct f as [|f]; [reflexivity|].
+    destruct (sx o fns obj (S f) l m) as [m1|v m1|x m1]; try reflexivity. cbn [then_].
+    change (sx o fns obj (S f) (EStr name) m1) with (XNormal (push m1 (VStr name))). cbn [then_].
+    destruct m1 as [s e t p]. destruct s as [|a s]; reflexivity.
+  - apply bin_step_g_index.
+Qed.
+
 End Sem.
 
 
@@ -1037,7 +1060,7 @@ Proof.
           | Ok v => XNormal (set_menv m3 (env_set (menv m3) (trim_dollar name) v))
           | Err x => XErr x m3
           end)))).
-    { cbn [sx]. rewrite Hm. reflexivity. }
+    { destruct tok; try discriminate Hm; cbn [sx]; rewrite Hm; reflexivity. }
     rewrite Heq. clear Heq.
     cbn [emit0 consts] in Hsz, Hpool.
     assert (Hi : i < 65536) by (apply nthN_some_lt in Hn; lia).
@@ -2496,9 +2519,6 @@ Proof. reflexivity. Qed.
 
 Local Ltac infix_case_g o fns e1 e2 c c1 c2 Hc R1 R2 :=
   match goal with
-  | |- res_ok _ _ _ _ (sp_x _ _ (EInfix TPeriod _ _)) _ =>
-      apply (cc_binary_g o fns _ e1 e2 OpIndex (spec_index o) c c1 c2 _ _ Hc R1 R2);
-      [intros; reflexivity | apply bin_step_g_index]
   | |- res_ok _ _ _ _ (sp_x _ _ (EInfix TDotDot _ _)) _ =>
       apply (cc_binary_g o fns _ e1 e2 OpRange vm_range c c1 c2 _ _ Hc R1 R2);
       [intros; reflexivity | apply bin_step_g_range]
@@ -2589,13 +2609,16 @@ Proof.
         -- apply (cc_unary_g o fns _ e OpSquareRoot vm_sqrt c c1 _ Hc R1);
              [intros; reflexivity | apply un_step_g_sqrt].
       * (* EInfix *)
-        rewrite compile_infix_eq in H.
-
+        destruct (tokty_eq_dec op TPeriod) as [->|Hne].
+        { destruct (compile_dot_inv _ _ _ _ _ H) as (c1 & name & E1 & En & ->). ne.
+          exact (cc_dot_g o fns e1 e2 name c c1 _ Hc (IHe e1 c c1 Hc E1) En). }
+        rewrite compile_infix_eq in H by exact Hne.
         destruct (compile_expr f e1 c) as [[] c1| | |] eqn:E1; try discriminate. cbn [cbind] in H.
         destruct (compile_expr f e2 c1) as [[] c2| | |] eqn:E2; try discriminate. cbn [cbind] in H.
         pose proof (IHe e1 c c1 Hc E1) as R1.
         pose proof (IHe e2 c1 c2 (res_ok_ok _ _ _ _ _ _ R1) E2) as R2.
         destruct op; cbn [infix_opcode is_mutator] in H; try discriminate;
+          try (exfalso; apply Hne; reflexivity);
           first [ injection H as <-; ne; infix_case_g o fns e1 e2 c c1 c2 Hc R1 R2
                 | destruct e1; try discriminate; injection H as <-; ne;
                   mutate_case o fns e2 c c1 c2 Hc R1 R2 ].
